@@ -380,9 +380,11 @@ Definition set_reg (c : nat) (b : opd A) (s : St) : res St :=
     else Ok s2
   else Ok (upd s c r2).
 
-(* SetVariable(i, n, order), order <= 2 *)
+(* SetVariable(i, n, order), order <= 2.  HEAD 8241a1e: a.Alloc(n, order); a.ResetDerivatives(); Derivative[i] = 1 —
+   a scalar that already has n variables at this order keeps its storage in Alloc, so the stale gradient / Hessian
+   of an earlier computation is cleared explicitly *)
 Definition set_variable (c i n order : nat) (s : St) : res St :=
-  let r := alloc (s c) n order in
+  let r := reset_derivs (alloc (s c) n order) in
   if 1 <=? order then
     if i <? length (rderiv r) then Ok (upd s c (set_d r i one)) else Panic EIndex
   else Ok (upd s c r).
